@@ -210,10 +210,10 @@ pub struct Layout {
 pub fn layout(ctx: &Ctx, prop: &str) -> Layout {
     let nc = ctx.corpus.len() as u64;
     let small = ctx.small_corpus as u64;
-    // The unoptimised profile is 4-10x slower; in the quick tier it explores a third of the
-    // random plans (same structured walks and special scenarios). Supervisor and workers see the
+    // The unoptimised profile is 4-10x slower; it explores a third of the random plans (same
+    // structured walks and special scenarios). Supervisor and workers see the
     // same ASESIM_PROFILE, so job ids agree.
-    let slow = ctx.tier == Tier::Quick && std::env::var("ASESIM_PROFILE").map(|p| p == "unopt").unwrap_or(false);
+    let slow = std::env::var("ASESIM_PROFILE").map(|p| p == "unopt").unwrap_or(false);
     let l = layout_full(ctx, prop, nc, small);
     if slow {
         Layout {
